@@ -493,7 +493,10 @@ impl Scheduler {
                     mem::drop(ready);
 
                     if self.core.claim_pending_queue(queue) {
-                        // We're now running the queue: try to run jobs on it until it's ready
+                        // We're now running the queue (so it must be marked as panicked if one of its jobs panics while we're running it)
+                        let _active = ActiveQueue { queue: &*queue };
+
+                        // Try to run jobs on it until it's ready
                         while !*ready_mutex.lock().unwrap() {
                             match JobQueue::run_one_job_now(queue) {
                                 JobStatus::Finished | JobStatus::NoJobsWaiting => { },
